@@ -124,8 +124,36 @@ def isZero : Flt → Bool
 
 end Flt
 
-/-- Operand values of a script: JSON data, the `Nothing` marker for a path that selects no node, and
-a compiled regular expression (its pattern). Integers are int64 values. -/
+/-- What the `Normalize` switch of `evalWithRoot` / the function `normalize` (jp/script.go) turn a Go
+value of a sized number type or a `gen` scalar node into; `none` for every other type (left as it is). -/
+inductive Core where
+  | none
+  | sint (i : Int)      -- int, int8, int16, int32: `int64(x)`
+  | uint (i : Int)      -- uint, uint8, uint16, uint32, uint64 (0 ≤ i < 2^64): `int64(x)`, which wraps
+  | f32 (f : Flt)       -- float32: `float64(x)` (exact)
+  | gbool (b : Bool)    -- gen.Bool
+  | gint (i : Int)      -- gen.Int
+  | gflt (f : Flt)      -- gen.Float
+  | gstr (s : Bytes)    -- gen.String
+  deriving DecidableEq, Inhabited
+
+/-- A TYPED Go value: any value whose dynamic type is none of nil / bool / int64 / float64 / string /
+[]any / map[string]any / the Nothing marker / *regexp.Regexp — as the script code sees it:
+`ty` names the dynamic type, `cmp` is `reflect.TypeOf(x).Comparable()` (false for `[]int`, `[]string`,
+`map[string]int`, `gen.Array`, `gen.Object`, a struct with a slice field; true for named scalar types,
+`[2]int`, pointers, `int8`…), `id` is the equality class of the value under Go `==` among the values of
+its type (only meaningful when `cmp`), `core` is what normalisation turns it into. Assumption (registry):
+a comparable struct/array type whose value holds an uncomparable value in an interface-typed field is NOT
+such a value (finding C12-iface-field-panic). -/
+structure Ext where
+  ty : Nat
+  cmp : Bool
+  id : Nat
+  core : Core
+  deriving DecidableEq, Inhabited
+
+/-- Operand values of a script: JSON data, the `Nothing` marker for a path that selects no node,
+a compiled regular expression (its pattern), and typed Go values (`ext`). Integers are int64 values. -/
 inductive Val where
   | null
   | bool (b : Bool)
@@ -136,7 +164,24 @@ inductive Val where
   | obj (kvs : List (Bytes × Val))
   | nothing
   | rx (pat : Bytes)
+  | ext (e : Ext)
   deriving Inhabited
+
+/-- the number / boolean / string a typed scalar stands for (`normalize` in jp/script.go): sized integers
+and `gen.Int` become int64 (`uint64` wraps), `float32`/`gen.Float` float64, `gen.Bool` bool, `gen.String`
+string; everything else — in particular typed containers and named scalar types — stays what it is. -/
+def Val.norm : Val → Val
+  | .ext e =>
+    match e.core with
+    | .none => .ext e
+    | .sint i => .int i
+    | .uint i => .int (wrap64 i)
+    | .f32 f => .flt f
+    | .gbool b => .bool b
+    | .gint i => .int i
+    | .gflt f => .flt f
+    | .gstr s => .str s
+  | v => v
 
 /-- a regular-expression engine: `rx pattern subject` is `none` when the pattern does not compile.
 All theorems hold for every engine; the driver instantiates it with a literal-text matcher. -/
